@@ -1,8 +1,1268 @@
 (* Proofs about Model/Fs.v (C17). *)
-From Coq Require Import String Ascii List Bool Arith Lia.
+From Coq Require Import String Ascii List Bool Arith Lia Permutation.
 From Shoot Require Import Model.Fs.
 Import ListNotations.
 Local Open Scope string_scope.
 
+(* ------------------------------------------------------------------ lists *)
+Definition prefix_of {A} (p l : list A) : Prop := exists r, l = (p ++ r)%list.
+
+Lemma prefix_of_nil {A} (l : list A) : prefix_of [] l.
+Proof. exists l. reflexivity. Qed.
+
+Lemma prefix_of_refl {A} (l : list A) : prefix_of l l.
+Proof. exists []. now rewrite app_nil_r. Qed.
+
+Lemma prefix_of_firstn {A} k (l : list A) : prefix_of (firstn k l) l.
+Proof. exists (skipn k l). now rewrite firstn_skipn. Qed.
+
+Lemma prefix_of_In {A} (p l : list A) x : prefix_of p l -> In x p -> In x l.
+Proof. intros [r ->] H. apply in_or_app. now left. Qed.
+
+Lemma prefix_of_app {A} (p a b : list A) :
+  prefix_of p (a ++ b)%list ->
+  prefix_of p a \/ exists q, p = (a ++ q)%list /\ prefix_of q b.
+Proof.
+  revert p. induction a as [|x a IH]; intros p [r Hr].
+  - right. exists p. split; [reflexivity|]. exists r. exact Hr.
+  - destruct p as [|y p].
+    + left. apply prefix_of_nil.
+    + cbn in Hr. injection Hr as <- Hr.
+      destruct (IH p) as [[r' Hl]|[q [-> Hq]]].
+      * exists r. exact Hr.
+      * left. exists r'. cbn. now rewrite Hl.
+      * right. exists q. split; [reflexivity|exact Hq].
+Qed.
+
+Lemma prefix_of_app_l {A} (p a b : list A) : prefix_of p a -> prefix_of p (a ++ b)%list.
+Proof. intros [r ->]. exists (r ++ b)%list. now rewrite app_assoc. Qed.
+
+Lemma prefix_of_app_r {A} (q a b : list A) : prefix_of q b -> prefix_of (a ++ q)%list (a ++ b)%list.
+Proof. intros [r ->]. exists r. now rewrite app_assoc. Qed.
+
+(* ---------------------------------------------------------------- strings *)
+Lemma ascii_eqb_refl a : Ascii.eqb a a = true.
+Proof. apply Ascii.eqb_refl. Qed.
+
+Lemma sprefix_app p r : sprefix p (p ++ r) = true.
+Proof. induction p as [|a p IH]; cbn; [reflexivity|]. now rewrite ascii_eqb_refl, IH. Qed.
+
+Lemma sprefix_spec p s : sprefix p s = true -> exists r, s = p ++ r.
+Proof.
+  revert s. induction p as [|a p IH]; intros s H.
+  - exists s. reflexivity.
+  - destruct s as [|b s]; cbn in H; [discriminate|].
+    apply andb_true_iff in H as [Hab H]. apply Ascii.eqb_eq in Hab as ->.
+    destruct (IH s H) as [r ->]. exists r. reflexivity.
+Qed.
+
+Lemma sdrop_app p r : sdrop (String.length p) (p ++ r) = r.
+Proof. induction p as [|a p IH]; cbn; auto. Qed.
+
+Lemma sapp_assoc (a b c : string) : (a ++ b) ++ c = a ++ (b ++ c).
+Proof. induction a as [|x a IH]; cbn; [reflexivity|]. now rewrite IH. Qed.
+
+Lemma sapp_nil_r (a : string) : a ++ "" = a.
+Proof. induction a as [|x a IH]; cbn; [reflexivity|]. now rewrite IH. Qed.
+
+Lemma after_sub_app pat a b : after_sub pat (a ++ pat ++ b) <> None.
+Proof.
+  induction a as [|x a IH].
+  - cbn [append]. destruct (pat ++ b) eqn:E; cbn [after_sub]; rewrite <- ?E, sprefix_app; discriminate.
+  - cbn [append after_sub]. destruct (sprefix pat (String x (a ++ pat ++ b))); [discriminate|exact IH].
+Qed.
+
+Lemma after_sub_spec pat s r : after_sub pat s = Some r -> exists a, s = a ++ pat ++ r.
+Proof.
+  revert r. induction s as [|x s IH]; intros r H.
+  - cbn in H. destruct (sprefix pat "") eqn:E; [|discriminate].
+    injection H as <-. destruct (sprefix_spec _ _ E) as [q Hq]. exists "". cbn.
+    rewrite Hq at 1. f_equal. destruct pat; cbn in *; [now rewrite Hq|discriminate].
+  - cbn [after_sub] in H. destruct (sprefix pat (String x s)) eqn:E.
+    + injection H as <-. destruct (sprefix_spec _ _ E) as [q Hq]. exists "". cbn [append].
+      rewrite Hq at 1. f_equal. rewrite Hq. now rewrite sdrop_app.
+    + destruct (IH r H) as [a ->]. exists (String x a). reflexivity.
+Qed.
+
+Lemma contains_app pat a b : contains pat (a ++ pat ++ b) = true.
+Proof. unfold contains. destruct (after_sub pat (a ++ pat ++ b)) eqn:E; [reflexivity|]. now apply after_sub_app in E. Qed.
+
+Lemma srev_acc_app s acc : srev_acc s acc = srev_acc s "" ++ acc.
+Proof.
+  revert acc. induction s as [|c s IH]; intros acc; cbn; [reflexivity|].
+  rewrite (IH (String c acc)), (IH (String c "")). now rewrite sapp_assoc.
+Qed.
+
+Lemma srev_cons c s : srev (String c s) = srev s ++ String c "".
+Proof. unfold srev. cbn. now rewrite srev_acc_app. Qed.
+
+Lemma srev_app a b : srev (a ++ b) = srev b ++ srev a.
+Proof.
+  induction a as [|c a IH]; cbn [append].
+  - unfold srev at 3. cbn. now rewrite sapp_nil_r.
+  - rewrite !srev_cons, IH. now rewrite sapp_assoc.
+Qed.
+
+Lemma srev_involutive s : srev (srev s) = s.
+Proof.
+  induction s as [|c s IH]; [reflexivity|].
+  rewrite srev_cons, srev_app, IH. reflexivity.
+Qed.
+
+(* a name built as  X ++ mid ++ Y ++ ".go"  matches the pattern *)
+Lemma glob_shape cmd X Y : glob cmd (X ++ glob_mid cmd ++ Y ++ ".go") = true.
+Proof.
+  unfold glob.
+  assert (E : srev (X ++ glob_mid cmd ++ Y ++ ".go") = "og." ++ srev (X ++ glob_mid cmd ++ Y)).
+  { replace (X ++ glob_mid cmd ++ Y ++ ".go") with ((X ++ glob_mid cmd ++ Y) ++ ".go")
+      by now rewrite !sapp_assoc.
+    now rewrite srev_app. }
+  rewrite E. change 3 with (String.length "og."). rewrite sprefix_app, sdrop_app, srev_involutive.
+  now rewrite contains_app.
+Qed.
+
+Lemma glob_sound cmd n : glob cmd n = true -> exists X Y, n = X ++ glob_mid cmd ++ Y ++ ".go".
+Proof.
+  unfold glob. intros H. apply andb_true_iff in H as [H1 H2].
+  destruct (sprefix_spec _ _ H1) as [r Hr].
+  rewrite Hr in H2. change 3 with (String.length "og.") in H2. rewrite sdrop_app in H2.
+  unfold contains in H2. destruct (after_sub (glob_mid cmd) (srev r)) as [y|] eqn:E; [|discriminate].
+  destruct (after_sub_spec _ _ _ E) as [a Ha].
+  exists a, y.
+  assert (Hn : n = srev r ++ ".go").
+  { rewrite <- (srev_involutive n), Hr, srev_app. reflexivity. }
+  rewrite Hn, Ha. now rewrite !sapp_assoc.
+Qed.
+
+Lemma file_name_glob cmd gofile T : glob cmd (file_name cmd gofile T) = true.
+Proof.
+  unfold file_name. destruct T as [|c T].
+  - replace (trim_go gofile ++ ".shoot" ++ cmd ++ ".go")
+      with (trim_go gofile ++ glob_mid cmd ++ "" ++ ".go").
+    + apply glob_shape.
+    + unfold glob_mid. now rewrite !sapp_assoc.
+  - set (L := lower (if is_exported (String c T) then String c T else "_" ++ String c T)).
+    replace (trim_go gofile ++ ".shoot" ++ cmd ++ "." ++ L ++ ".go")
+      with (trim_go gofile ++ glob_mid cmd ++ ("." ++ L) ++ ".go").
+    + apply glob_shape.
+    + unfold glob_mid. now rewrite !sapp_assoc.
+Qed.
+
+(* temporary names never match the pattern (they end in a digit) *)
+Definition is_digit (c : ascii) : bool := let n := nat_of_ascii c in Nat.leb 48 n && Nat.leb n 57.
+
+Lemma srev_digits r : all_digits r = true -> r <> "" -> exists d t, srev r = String d t /\ is_digit d = true.
+Proof.
+  induction r as [|c r IH]; intros H Hne; [congruence|].
+  cbn in H. apply andb_true_iff in H as [Hc Hr].
+  destruct r as [|c' r'].
+  - exists c, "". split; [reflexivity|exact Hc].
+  - destruct (IH Hr) as [d [t [E Hd]]]; [discriminate|].
+    exists d, (t ++ String c ""). split; [|exact Hd].
+    rewrite srev_cons, E. reflexivity.
+Qed.
+
+Lemma tmp_name_not_glob cmd f r : all_digits r = true -> r <> "" -> glob cmd (tmp_name f r) = false.
+Proof.
+  intros H Hne. unfold glob, tmp_name.
+  replace ("." ++ f ++ "_" ++ r) with (("." ++ f ++ "_") ++ r) by now rewrite !sapp_assoc.
+  rewrite srev_app. destruct (srev_digits r H Hne) as [d [t [E Hd]]]. rewrite E.
+  cbn [append sprefix].
+  destruct (Ascii.eqb "o" d) eqn:Eo; [|reflexivity].
+  apply Ascii.eqb_eq in Eo. subst d. discriminate.
+Qed.
+
+Lemma tmp_name_not_output cmd f r g : all_digits r = true -> r <> "" -> glob cmd g = true -> tmp_name f r <> g.
+Proof. intros H Hne Hg E. rewrite <- E, tmp_name_not_glob in Hg by assumption. discriminate. Qed.
+
+(* what the header tests mean *)
+Lemma is_gen_prefix cmd l : is_gen cmd l = true -> exists r, l = gen_prefix cmd ++ r.
+Proof. unfold is_gen. intros H. apply andb_true_iff in H as [H _]. now apply sprefix_spec. Qed.
+
+(* --------------------------------------------------------- association lists *)
+Lemma lookup_remove_eq n d : lookup n (remove_name n d) = None.
+Proof.
+  induction d as [|[m i] d IH]; cbn; [reflexivity|].
+  destruct (String.eqb n m) eqn:E; [exact IH|]. cbn. now rewrite E.
+Qed.
+
+Lemma lookup_remove_neq n m d : n <> m -> lookup n (remove_name m d) = lookup n d.
+Proof.
+  intros Hne. induction d as [|[k i] d IH]; cbn; [reflexivity|].
+  destruct (String.eqb m k) eqn:E.
+  - apply String.eqb_eq in E. subst k.
+    destruct (String.eqb n m) eqn:E2; [apply String.eqb_eq in E2; congruence|exact IH].
+  - cbn. now rewrite IH.
+Qed.
+
+Lemma lookup_bind_eq n i d : lookup n (bind n i d) = Some i.
+Proof. unfold bind. cbn. now rewrite String.eqb_refl. Qed.
+
+Lemma lookup_bind_neq n m i d : n <> m -> lookup n (bind m i d) = lookup n d.
+Proof.
+  intros Hne. unfold bind. cbn.
+  destruct (String.eqb n m) eqn:E; [apply String.eqb_eq in E; congruence|].
+  now apply lookup_remove_neq.
+Qed.
+
+Lemma lookup_In n d : lookup n d <> None <-> In n (map fst d).
+Proof.
+  induction d as [|[m i] d IH]; cbn.
+  - split; [congruence|tauto].
+  - destruct (String.eqb n m) eqn:E.
+    + apply String.eqb_eq in E. subst. split; [auto|discriminate].
+    + split.
+      * intros H. right. now apply IH.
+      * intros [H|H]; [subst; rewrite String.eqb_refl in E; discriminate|now apply IH].
+Qed.
+
+#[local] Arguments bind : simpl never.
+
+(* ------------------------------------------------------------- single steps *)
+Definition touch (o : op) : list name :=
+  match o with
+  | CreateTemp _ t => [t]
+  | Rename a b => [a; b]
+  | Unlink n => [n]
+  | OpenTrunc _ n => [n]
+  | _ => []
+  end.
+
+Definition safe (o : op) : bool :=
+  match o with OpenTrunc _ _ | Other _ => false | _ => true end.
+
+Lemma step_untouched s o n : ~ In n (touch o) -> lookup n (dir (step s o)) = lookup n (dir s).
+Proof.
+  intros Hn. unfold step. destruct (negb (ok s o)); [reflexivity|].
+  destruct o as [h t|h b|h|a b|m|m|h m|w]; cbn [touch] in Hn; cbn.
+  - apply lookup_bind_neq. intros ->. apply Hn. now left.
+  - destruct (fds s h); reflexivity.
+  - reflexivity.
+  - destruct (lookup a (dir s)) as [i|]; [|reflexivity].
+    destruct (String.eqb a b); [reflexivity|]. cbn.
+    rewrite lookup_bind_neq by (intros ->; apply Hn; cbn; tauto).
+    apply lookup_remove_neq. intros ->. apply Hn. cbn. tauto.
+  - apply lookup_remove_neq. intros ->. apply Hn. now left.
+  - reflexivity.
+  - destruct (lookup m (dir s)); cbn; [reflexivity|].
+    apply lookup_bind_neq. intros ->. apply Hn. now left.
+  - reflexivity.
+Qed.
+
+Lemma exec_untouched ops : forall s n,
+  (forall o, In o ops -> ~ In n (touch o)) -> lookup n (dir (exec s ops)) = lookup n (dir s).
+Proof.
+  induction ops as [|o ops IH]; intros s n H; cbn; [reflexivity|].
+  rewrite IH by (intros o' Ho'; apply H; now right).
+  apply step_untouched. apply H. now left.
+Qed.
+
 Lemma exec_app s a b : exec s (a ++ b) = exec (exec s a) b.
 Proof. revert s. induction a as [|o a IH]; intros s; cbn; auto. Qed.
+
+Lemma all_ok_app a : forall s b, all_ok s (a ++ b) = all_ok s a && all_ok (exec s a) b.
+Proof.
+  induction a as [|o a IH]; intros s b; cbn; [reflexivity|].
+  rewrite IH. now rewrite andb_assoc.
+Qed.
+
+(* an inode that exists and is not open *)
+Definition closed (s : fs) (i : inode) : Prop := i < next s /\ forall h, fds s h <> Some i.
+
+Lemma step_closed s o i : safe o = true -> closed s i ->
+  closed (step s o) i /\ data (step s o) i = data s i.
+Proof.
+  intros Hs [Hlt Hfd]. unfold step. destruct (negb (ok s o)) eqn:Hok; [repeat split; auto|].
+  apply negb_false_iff in Hok.
+  destruct o as [h t|h b|h|a b|m|m|h m|w]; cbn [safe] in Hs; try discriminate; cbn.
+  - repeat split; cbn.
+    + lia.
+    + intros k. unfold upd_fd. destruct (Nat.eqb k h); [|apply Hfd].
+      intros E. injection E as E. lia.
+    + unfold upd_data. destruct (Nat.eqb i (next s)) eqn:E; [apply Nat.eqb_eq in E; lia|reflexivity].
+  - destruct (fds s h) as [j|] eqn:Ej; [|repeat split; auto]. cbn.
+    repeat split; auto.
+    unfold upd_data. destruct (Nat.eqb i j) eqn:E; [|reflexivity].
+    apply Nat.eqb_eq in E. subst j. exfalso. now apply (Hfd h).
+  - repeat split; auto. cbn. intros k. unfold upd_fd. destruct (Nat.eqb k h); [discriminate|apply Hfd].
+  - destruct (lookup a (dir s)); [|repeat split; auto].
+    destruct (String.eqb a b); repeat split; auto.
+  - repeat split; auto.
+  - repeat split; auto.
+Qed.
+
+Lemma exec_closed ops : forall s i, forallb safe ops = true -> closed s i ->
+  closed (exec s ops) i /\ data (exec s ops) i = data s i.
+Proof.
+  induction ops as [|o ops IH]; intros s i Hs Hc; cbn; [auto|].
+  cbn in Hs. apply andb_true_iff in Hs as [Ho Hs].
+  destruct (step_closed s o i Ho Hc) as [Hc' Hd].
+  destruct (IH (step s o) i Hs Hc') as [Hc'' Hd'].
+  split; [exact Hc''|congruence].
+Qed.
+
+Lemma step_next_mono s o : next s <= next (step s o).
+Proof.
+  unfold step. destruct (negb (ok s o)); [lia|].
+  destruct o as [h t|h b|h|a b|m|m|h m|w]; cbn; try lia.
+  - destruct (fds s h); cbn; lia.
+  - destruct (lookup a (dir s)); [|lia]. destruct (String.eqb a b); cbn; lia.
+  - destruct (lookup m (dir s)); cbn; lia.
+Qed.
+
+Lemma exec_next_mono ops : forall s, next s <= next (exec s ops).
+Proof.
+  induction ops as [|o ops IH]; intros s; cbn; [lia|].
+  specialize (IH (step s o)). pose proof (step_next_mono s o). lia.
+Qed.
+
+(* lists made of ReadFirstLine / Unlink only (the Clean phase) *)
+Definition ru (o : op) : bool := match o with ReadFirstLine _ | Unlink _ => true | _ => false end.
+
+Lemma ru_safe o : ru o = true -> safe o = true.
+Proof. destruct o; cbn; congruence. Qed.
+
+Lemma forallb_ru_safe ops : forallb ru ops = true -> forallb safe ops = true.
+Proof.
+  induction ops as [|o ops IH]; cbn; [auto|]. intros H. apply andb_true_iff in H as [H1 H2].
+  now rewrite (ru_safe _ H1), IH.
+Qed.
+
+Lemma step_ru s o : ru o = true ->
+  data (step s o) = data s /\ fds (step s o) = fds s /\ next (step s o) = next s /\
+  forall n, lookup n (dir (step s o)) = lookup n (dir s) \/ lookup n (dir (step s o)) = None.
+Proof.
+  intros H. unfold step. destruct (negb (ok s o)); [repeat split; auto|].
+  destruct o as [h t|h b|h|a b|m|m|h m|w]; cbn in H; try discriminate; cbn.
+  - repeat split; auto. intros n. destruct (String.eqb_spec n m) as [->|Hne].
+    + right. apply lookup_remove_eq.
+    + left. now apply lookup_remove_neq.
+  - repeat split; auto.
+Qed.
+
+Lemma exec_ru ops : forall s, forallb ru ops = true ->
+  data (exec s ops) = data s /\ fds (exec s ops) = fds s /\ next (exec s ops) = next s /\
+  forall n, lookup n (dir (exec s ops)) = lookup n (dir s) \/ lookup n (dir (exec s ops)) = None.
+Proof.
+  induction ops as [|o ops IH]; intros s H; cbn; [repeat split; auto|].
+  cbn in H. apply andb_true_iff in H as [Ho H].
+  destruct (step_ru s o Ho) as (Hd & Hf & Hn & Hl).
+  destruct (IH (step s o) H) as (Hd' & Hf' & Hn' & Hl').
+  repeat split; try congruence.
+  intros n. destruct (Hl' n) as [E|E]; [|now right].
+  rewrite E. apply Hl.
+Qed.
+
+Lemma exec_ru_unlinked ops : forall s n, forallb ru ops = true -> In (Unlink n) ops ->
+  lookup n (dir (exec s ops)) = None.
+Proof.
+  induction ops as [|o ops IH]; intros s n H Hin; [destruct Hin|].
+  cbn in H. apply andb_true_iff in H as [Ho H]. cbn.
+  destruct Hin as [->|Hin]; [|now apply IH].
+  assert (E : lookup n (dir (step s (Unlink n))) = None).
+  { unfold step. destruct (negb (ok s (Unlink n))) eqn:Hok.
+    - apply negb_true_iff in Hok. cbn in Hok. destruct (lookup n (dir s)); [discriminate|reflexivity].
+    - cbn. apply lookup_remove_eq. }
+  destruct (exec_ru ops (step s (Unlink n)) H) as (_ & _ & _ & Hl).
+  destruct (Hl n) as [E'|E']; congruence.
+Qed.
+
+(* ------------------------------------------------------------ one notedownSrc *)
+Definition pre_ops (h : nat) (o : output) : list op :=
+  (CreateTemp h (o_tmp o) :: map (Write h) (o_chunks o) ++ [Close h])%list.
+
+Lemma note_down_split h o : note_down h o = (pre_ops h o ++ [Rename (o_tmp o) (o_name o)])%list.
+Proof. unfold note_down, pre_ops. cbn. f_equal. now rewrite <- app_assoc. Qed.
+
+Lemma pre_ops_touch h o x n : In x (pre_ops h o) -> In n (touch x) -> n = o_tmp o.
+Proof.
+  unfold pre_ops. intros [<-|Hx] Hn.
+  - cbn in Hn. destruct Hn as [Hn|[]]. now symmetry.
+  - apply in_app_or in Hx as [Hx|[<-|[]]].
+    + apply in_map_iff in Hx as [b [<- _]]. destruct Hn.
+    + destruct Hn.
+Qed.
+
+Lemma pre_ops_safe h o : forallb safe (pre_ops h o) = true.
+Proof.
+  unfold pre_ops. cbn. rewrite forallb_app. cbn. rewrite andb_true_r.
+  induction (o_chunks o); cbn; auto.
+Qed.
+
+Lemma note_down_safe h o : forallb safe (note_down h o) = true.
+Proof. rewrite note_down_split, forallb_app, pre_ops_safe. reflexivity. Qed.
+
+Definition nofds (s : fs) : Prop := forall h, fds s h = None.
+Definition dir_wf (s : fs) : Prop := forall n i, lookup n (dir s) = Some i -> i < next s.
+
+Lemma concat_cons b l : String.concat "" (b :: l) = b ++ String.concat "" l.
+Proof. destruct l; cbn; [now rewrite sapp_nil_r|reflexivity]. Qed.
+
+(* the Write loop *)
+Lemma exec_writes h chunks : forall s i, fds s h = Some i ->
+  let s' := exec s (map (Write h) chunks) in
+  dir s' = dir s /\ fds s' = fds s /\ next s' = next s /\
+  data s' i = data s i ++ String.concat "" chunks /\
+  (forall j, j <> i -> data s' j = data s j) /\
+  all_ok s (map (Write h) chunks) = true.
+Proof.
+  induction chunks as [|b chunks IH]; intros s i Hfd; cbn [map exec all_ok].
+  - repeat split; auto. cbn. now rewrite sapp_nil_r.
+  - assert (Hst : step s (Write h b) = mkfs (dir s) (upd_data (data s) i (data s i ++ b)) (fds s) (next s)).
+    { unfold step. cbn. now rewrite Hfd. }
+    rewrite Hst.
+    set (s1 := mkfs (dir s) (upd_data (data s) i (data s i ++ b)) (fds s) (next s)).
+    destruct (IH s1 i Hfd) as (Hd & Hf & Hn & Hdat & Hoth & Hok).
+    repeat split; auto.
+    + rewrite Hdat. cbn [data s1]. unfold upd_data. rewrite Nat.eqb_refl.
+      rewrite concat_cons. now rewrite sapp_assoc.
+    + intros j Hj. rewrite (Hoth j Hj). cbn [data s1]. unfold upd_data.
+      destruct (Nat.eqb j i) eqn:E; [apply Nat.eqb_eq in E; congruence|reflexivity].
+    + cbn [ok]. rewrite Hfd. exact Hok.
+Qed.
+
+(* the complete block *)
+Lemma exec_note_down h o s :
+  lookup (o_tmp o) (dir s) = None -> nofds s -> o_tmp o <> o_name o ->
+  let s' := exec s (note_down h o) in
+  lookup (o_name o) (dir s') = Some (next s) /\
+  lookup (o_tmp o) (dir s') = None /\
+  (forall n, n <> o_name o -> n <> o_tmp o -> lookup n (dir s') = lookup n (dir s)) /\
+  data s' (next s) = new_bytes o /\
+  (forall j, j <> next s -> data s' j = data s j) /\
+  nofds s' /\ next s' = S (next s) /\
+  all_ok s (note_down h o) = true.
+Proof.
+  intros Htmp Hfd Hne. unfold note_down.
+  set (i := next s).
+  set (s1 := mkfs (bind (o_tmp o) i (dir s)) (upd_data (data s) i "") (upd_fd (fds s) h (Some i)) (S i)).
+  assert (Hst : step s (CreateTemp h (o_tmp o)) = s1).
+  { unfold step. cbn. now rewrite Htmp, (Hfd h). }
+  assert (Hok1 : ok s (CreateTemp h (o_tmp o)) = true) by (cbn; now rewrite Htmp, (Hfd h)).
+  cbn [exec all_ok]. rewrite Hst, Hok1. rewrite exec_app.
+  assert (Hfd1 : fds s1 h = Some i) by (cbn; unfold upd_fd; now rewrite Nat.eqb_refl).
+  destruct (exec_writes h (o_chunks o) s1 i Hfd1) as (Hd & Hf & Hn & Hdat & Hoth & Hokw).
+  set (s2 := exec s1 (map (Write h) (o_chunks o))) in *.
+  assert (Hfd2 : fds s2 h = Some i) by now rewrite Hf.
+  assert (Hok3 : ok s2 (Close h) = true) by (cbn; now rewrite Hfd2).
+  set (s3 := mkfs (dir s2) (data s2) (upd_fd (fds s2) h None) (next s2)).
+  assert (Hst3 : step s2 (Close h) = s3) by (unfold step; now rewrite Hok3).
+  assert (Hl3 : lookup (o_tmp o) (dir s3) = Some i) by (cbn; rewrite Hd; apply lookup_bind_eq).
+  assert (Hok4 : ok s3 (Rename (o_tmp o) (o_name o)) = true) by (cbn [ok]; now rewrite Hl3).
+  set (s4 := mkfs (bind (o_name o) i (remove_name (o_tmp o) (dir s3))) (data s3) (fds s3) (next s3)).
+  assert (Hst4 : step s3 (Rename (o_tmp o) (o_name o)) = s4).
+  { unfold step. rewrite Hok4. cbn [negb]. cbv iota. rewrite Hl3.
+    destruct (String.eqb_spec (o_tmp o) (o_name o)); [congruence|reflexivity]. }
+  cbn [exec]. rewrite Hst3, Hst4.
+  repeat split.
+  - cbn. apply lookup_bind_eq.
+  - cbn. rewrite lookup_bind_neq by exact Hne. apply lookup_remove_eq.
+  - intros n Hn1 Hn2. cbn. rewrite lookup_bind_neq by exact Hn1.
+    rewrite lookup_remove_neq by exact Hn2. rewrite Hd. cbn. now apply lookup_bind_neq.
+  - cbn. rewrite Hdat. cbn. unfold upd_data. now rewrite Nat.eqb_refl.
+  - intros j Hj. cbn. rewrite (Hoth j Hj). cbn. unfold upd_data.
+    destruct (Nat.eqb j i) eqn:E; [apply Nat.eqb_eq in E; congruence|reflexivity].
+  - intros k. cbn. unfold upd_fd. destruct (Nat.eqb k h) eqn:E; [reflexivity|].
+    rewrite Hf. cbn. unfold upd_fd. rewrite E. apply Hfd.
+  - cbn. now rewrite Hn.
+  - rewrite all_ok_app, Hokw. fold s2. cbn [all_ok]. rewrite Hok3, Hst3, Hok4. reflexivity.
+Qed.
+
+(* ------------------------------------------------------------- write phase *)
+Definition names (outs : list output) : list name := map o_name outs.
+Definition temps (outs : list output) : list name := map o_tmp outs.
+
+(* hypotheses on the oracle choices, relative to the state in which the loop starts *)
+Record okouts (s : fs) (outs : list output) : Prop := {
+  k_names : NoDup (names outs);                                  (* keys of a Go map *)
+  k_temps : NoDup (temps outs);
+  k_fresh : forall t, In t (temps outs) -> lookup t (dir s) = None;      (* O_EXCL *)
+  k_disj : forall t, In t (temps outs) -> ~ In t (names outs)
+}.
+
+Lemma NoDup_app_disj {A} (a b : list A) x : NoDup (a ++ b) -> In x a -> In x b -> False.
+Proof.
+  induction a as [|y a IH]; intros H Ha Hb; [destruct Ha|].
+  cbn in H. inversion H as [|? ? Hn Hnd]; subst.
+  destruct Ha as [->|Ha]; [apply Hn; apply in_or_app; now right|now apply IH].
+Qed.
+
+Lemma NoDup_app_l {A} (a b : list A) : NoDup (a ++ b) -> NoDup a.
+Proof.
+  induction a as [|y a IH]; intros H; [constructor|].
+  cbn in H. inversion H as [|? ? Hn Hnd]; subst. constructor; [|now apply IH].
+  intros Hy. apply Hn. apply in_or_app. now left.
+Qed.
+
+Lemma okouts_prefix s done rest : okouts s (done ++ rest) -> okouts s done.
+Proof.
+  intros [H1 H2 H3 H4]. unfold names, temps in *. rewrite map_app in *.
+  split.
+  - now apply NoDup_app_l in H1.
+  - now apply NoDup_app_l in H2.
+  - intros t Ht. apply H3. apply in_or_app. now left.
+  - intros t Ht Hn. apply (H4 t); [apply in_or_app; now left|].
+    rewrite map_app. apply in_or_app. now left.
+Qed.
+
+Lemma write_ops_cons h o r : write_ops h (o :: r) = (note_down h o ++ write_ops h r)%list.
+Proof. reflexivity. Qed.
+
+Lemma write_ops_app h a b : write_ops h (a ++ b) = (write_ops h a ++ write_ops h b)%list.
+Proof. unfold write_ops. apply flat_map_app. Qed.
+
+Lemma write_ops_safe h outs : forallb safe (write_ops h outs) = true.
+Proof.
+  induction outs as [|o r IH]; [reflexivity|].
+  rewrite write_ops_cons, forallb_app, note_down_safe, IH. reflexivity.
+Qed.
+
+Lemma write_phase h outs : forall s, nofds s -> dir_wf s -> okouts s outs ->
+  let s' := exec s (write_ops h outs) in
+  (forall o, In o outs -> exists i, lookup (o_name o) (dir s') = Some i /\ next s <= i /\ data s' i = new_bytes o) /\
+  (forall t, In t (temps outs) -> lookup t (dir s') = None) /\
+  (forall n, ~ In n (names outs) -> ~ In n (temps outs) -> lookup n (dir s') = lookup n (dir s)) /\
+  nofds s' /\ dir_wf s' /\ next s <= next s' /\
+  (forall j, j < next s -> data s' j = data s j) /\
+  all_ok s (write_ops h outs) = true.
+Proof.
+  induction outs as [|o r IH]; intros s Hfd Hwf Hok.
+  - cbn. repeat split; auto; intros; try contradiction.
+  - destruct Hok as [Hn Ht Hfr Hdj]. cbn [names temps map] in *.
+    inversion Hn as [|? ? Hn1 Hn2]; subst. inversion Ht as [|? ? Ht1 Ht2]; subst.
+    assert (Hne : o_tmp o <> o_name o).
+    { intros E. apply (Hdj (o_tmp o)); [now left|]. rewrite E. now left. }
+    destruct (exec_note_down h o s (Hfr _ (or_introl eq_refl)) Hfd Hne)
+      as (B1 & B2 & B3 & B4 & B5 & B6 & B7 & B8).
+    set (s1 := exec s (note_down h o)) in *.
+    assert (Hwf1 : dir_wf s1).
+    { intros n i Hl. rewrite B7.
+      destruct (String.eqb_spec n (o_name o)) as [->|N1]; [rewrite B1 in Hl; injection Hl as <-; lia|].
+      destruct (String.eqb_spec n (o_tmp o)) as [->|N2]; [rewrite B2 in Hl; discriminate|].
+      rewrite B3 in Hl by assumption. apply Hwf in Hl. lia. }
+    assert (Hok1 : okouts s1 r).
+    { split; auto.
+      - intros t Hin. rewrite B3.
+        + apply Hfr. now right.
+        + intros ->. apply (Hdj (o_name o)); [now right|now left].
+        + intros ->. now apply Ht1.
+      - intros t Hin Hn'. apply (Hdj t); [now right|now right]. }
+    destruct (IH s1 B6 Hwf1 Hok1) as (I1 & I2 & I3 & I4 & I5 & I6 & I7 & I8).
+    rewrite write_ops_cons, exec_app. fold s1.
+    repeat split.
+    + intros o' [<-|Hin].
+      * exists (next s). repeat split; [|lia|].
+        -- rewrite I3; [exact B1|exact Hn1|].
+           intros Hin. apply (Hdj (o_name o)); [now right|now left].
+        -- rewrite I7 by lia. exact B4.
+      * destruct (I1 o' Hin) as (i & L & Hle & D). exists i. repeat split; auto. lia.
+    + intros t [<-|Hin].
+      * rewrite I3; [exact B2| |exact Ht1].
+        intros Hin. apply (Hdj (o_tmp o)); [now left|now right].
+      * now apply I2.
+    + intros n Hn' Ht'. rewrite I3.
+      * apply B3; intros ->; [apply Hn'|apply Ht']; now left.
+      * intros Hin. apply Hn'. now right.
+      * intros Hin. apply Ht'. now right.
+    + exact I4.
+    + exact I5.
+    + lia.
+    + intros j Hj. rewrite I7 by lia. apply B5. lia.
+    + rewrite all_ok_app. fold s1. now rewrite B8, I8.
+Qed.
+
+Lemma prefix_singleton {A} (q : list A) x : prefix_of q [x] -> q = [] \/ q = [x].
+Proof.
+  intros [r Hr]. destruct q as [|y q]; [now left|]. right.
+  cbn in Hr. injection Hr as <- Hr. destruct q; [reflexivity|discriminate].
+Qed.
+
+(* every prefix of the write loop = some complete blocks + a proper part of the next *)
+Lemma prefix_write h outs : forall p, prefix_of p (write_ops h outs) ->
+  exists done rest q, outs = (done ++ rest)%list /\ p = (write_ops h done ++ q)%list /\
+    (q = [] \/ exists o rest', rest = o :: rest' /\ prefix_of q (pre_ops h o)).
+Proof.
+  induction outs as [|o r IH]; intros p Hp.
+  - destruct Hp as [x Hx]. cbn in Hx. destruct p; [|discriminate].
+    exists [], [], []. repeat split; auto.
+  - rewrite write_ops_cons in Hp. apply prefix_of_app in Hp as [Hp|[q [-> Hq]]].
+    + rewrite note_down_split in Hp. apply prefix_of_app in Hp as [Hp|[q [-> Hq]]].
+      * exists [], (o :: r), p. repeat split; auto. right. exists o, r. auto.
+      * apply prefix_singleton in Hq as [->| ->].
+        -- exists [], (o :: r), (pre_ops h o). repeat split; [now rewrite app_nil_r|].
+           right. exists o, r. split; [reflexivity|apply prefix_of_refl].
+        -- exists [o], r, []. repeat split; auto.
+           rewrite app_nil_r. unfold write_ops. cbn [flat_map]. rewrite app_nil_r. now rewrite note_down_split.
+    + destruct (IH q Hq) as (done & rest & q' & -> & -> & Hq').
+      exists (o :: done), rest, q'. repeat split; auto.
+      rewrite write_ops_cons. now rewrite app_assoc.
+Qed.
+
+Lemma init_closed s j : nofds s -> j < next s -> closed s j.
+Proof. intros Hfd Hj. split; [exact Hj|]. intros h. rewrite Hfd. discriminate. Qed.
+
+(* the state after any prefix of the write loop *)
+Lemma write_prefix_state h outs init p :
+  nofds init -> dir_wf init -> okouts init outs -> prefix_of p (write_ops h outs) ->
+  let s := exec init p in
+  (forall o, In o outs ->
+     lookup (o_name o) (dir s) = lookup (o_name o) (dir init) \/
+     exists i, lookup (o_name o) (dir s) = Some i /\ data s i = new_bytes o /\ next init <= i) /\
+  (forall n, ~ In n (names outs) -> ~ In n (temps outs) -> lookup n (dir s) = lookup n (dir init)) /\
+  (forall n i, ~ In n (temps outs) -> lookup n (dir s) = Some i -> closed s i).
+Proof.
+  intros Hfd Hwf Hok Hp.
+  destruct (prefix_write h outs p Hp) as (done & rest & q & -> & -> & Hq).
+  pose proof (okouts_prefix _ _ _ Hok) as Hokd.
+  destruct (write_phase h done init Hfd Hwf Hokd) as (W1 & W2 & W3 & W4 & W5 & W6 & W7 & W8).
+  rewrite exec_app. set (sd := exec init (write_ops h done)) in *.
+  destruct Hok as [Hn Ht Hfr Hdj]. unfold names, temps in *. rewrite !map_app in *.
+  (* facts about q *)
+  assert (Hq' : forallb safe q = true /\
+                forall n, ~ In n (map o_tmp done ++ map o_tmp rest)%list -> lookup n (dir (exec sd q)) = lookup n (dir sd)).
+  { destruct Hq as [->|(o & rest' & -> & Hq)].
+    - split; [reflexivity|reflexivity].
+    - split.
+      + destruct Hq as [x Hx]. pose proof (pre_ops_safe h o) as Hs. rewrite Hx, forallb_app in Hs.
+        now apply andb_true_iff in Hs as [Hs _].
+      + intros n Hn'. apply exec_untouched. intros x Hx Hin.
+        apply (prefix_of_In _ _ _ Hq) in Hx. apply (pre_ops_touch h o x n Hx) in Hin. subst n.
+        apply Hn'. apply in_or_app. right. now left. }
+  destruct Hq' as [Hsafe Hunt].
+  assert (Hcl : forall i, i < next sd -> closed (exec sd q) i /\ data (exec sd q) i = data sd i).
+  { intros i Hi. apply exec_closed; [exact Hsafe|]. now apply init_closed. }
+  split; [|split].
+  - intros o Hin. apply in_app_or in Hin as [Hin|Hin].
+    + right. destruct (W1 o Hin) as (i & L & Hle & D). exists i.
+      assert (Hnt : ~ In (o_name o) (map o_tmp done ++ map o_tmp rest)%list).
+      { intros Hx. apply (Hdj _ Hx). apply in_or_app. left. now apply in_map. }
+      rewrite (Hunt _ Hnt). repeat split; auto.
+      destruct (Hcl i (W5 _ _ L)) as [_ E]. now rewrite E.
+    + left.
+      assert (Hnt : ~ In (o_name o) (map o_tmp done ++ map o_tmp rest)%list).
+      { intros Hx. apply (Hdj _ Hx). apply in_or_app. right. now apply in_map. }
+      rewrite (Hunt _ Hnt). apply W3.
+      * intros Hx. apply (NoDup_app_disj _ _ _ Hn Hx). now apply in_map.
+      * intros Hx. apply Hnt. apply in_or_app. now left.
+  - intros n Hn' Ht'. rewrite (Hunt _ Ht'). apply W3.
+    + intros Hx. apply Hn'. apply in_or_app. now left.
+    + intros Hx. apply Ht'. apply in_or_app. now left.
+  - intros n i Ht' L. rewrite (Hunt _ Ht') in L. now apply Hcl, (W5 n).
+Qed.
+
+(* -------------------------------------------------------------- clean phase *)
+Lemma insert_sorted_In x y l : In y (insert_sorted x l) <-> y = x \/ In y l.
+Proof.
+  induction l as [|z l IH]; cbn.
+  - split; [intros [H|[]]; auto|intros [H|[]]; auto].
+  - destruct (String.leb x z); cbn.
+    + split; [intros [H|H]; auto|intros [H|H]; auto].
+    + rewrite IH. tauto.
+Qed.
+
+Lemma sort_names_In y l : In y (sort_names l) <-> In y l.
+Proof.
+  induction l as [|x l IH]; cbn; [tauto|]. rewrite insert_sorted_In, IH.
+  split; intros [H|H]; auto.
+Qed.
+
+Lemma matches_In c s n : In n (matches c s) <-> glob (c_cmd c) n = true /\ lookup n (dir s) <> None.
+Proof.
+  unfold matches, listing. rewrite sort_names_In, filter_In, lookup_In. tauto.
+Qed.
+
+Lemma clean_one_ru c s f : forallb ru (clean_one c s f) = true.
+Proof.
+  unfold clean_one. destruct (is_own c f); [reflexivity|].
+  destruct (visible s f); [|reflexivity].
+  destruct (is_aio (first_line b)); [reflexivity|].
+  destruct (is_gen (c_cmd c) (first_line b)); reflexivity.
+Qed.
+
+Lemma clean_ops_ru c s : forallb ru (clean_ops c s) = true.
+Proof.
+  unfold clean_ops. destruct (c_clean c); [|reflexivity].
+  induction (matches c s) as [|f l IH]; [reflexivity|].
+  cbn. now rewrite forallb_app, clean_one_ru, IH.
+Qed.
+
+Lemma clean_one_touch c s f o n : In o (clean_one c s f) -> In n (touch o) -> n = f /\ is_victim c s f = true.
+Proof.
+  unfold clean_one, is_victim.
+  destruct (is_own c f); [intros []|].
+  destruct (visible s f) as [b|]; [|intros []].
+  destruct (is_aio (first_line b)).
+  - intros [<-|[]] [].
+  - destruct (is_gen (c_cmd c) (first_line b)).
+    + intros [<-|[<-|[<-|[]]]]; cbn; try tauto. intros [<-|[]]. auto.
+    + intros [<-|[<-|[]]] [].
+Qed.
+
+Lemma clean_ops_touch c s o n : In o (clean_ops c s) -> In n (touch o) -> In n (victims c s).
+Proof.
+  unfold clean_ops, victims. destruct (c_clean c); [|intros []].
+  intros Ho Hn. apply in_flat_map in Ho as (f & Hf & Ho).
+  destruct (clean_one_touch c s f o n Ho Hn) as [-> Hv].
+  apply filter_In. auto.
+Qed.
+
+Lemma victims_unlinked c s n : In n (victims c s) -> In (Unlink n) (clean_ops c s).
+Proof.
+  unfold victims, clean_ops. destruct (c_clean c); [|intros []].
+  intros H. apply filter_In in H as [Hm Hv]. apply in_flat_map. exists n. split; [exact Hm|].
+  unfold clean_one, is_victim in *.
+  destruct (is_own c n); [discriminate|].
+  destruct (visible s n) as [b|]; [|discriminate].
+  cbn in Hv. apply andb_true_iff in Hv as [Ha Hg]. apply negb_true_iff in Ha.
+  rewrite Ha, Hg. cbn. tauto.
+Qed.
+
+Lemma victims_spec c s n : In n (victims c s) <->
+  c_clean c = true /\ glob (c_cmd c) n = true /\ lookup n (dir s) <> None /\ is_victim c s n = true.
+Proof.
+  unfold victims. destruct (c_clean c).
+  - rewrite filter_In, matches_In. tauto.
+  - split; [intros []|intros [H _]; discriminate].
+Qed.
+
+(* ------------------------------------------------------------- the whole run *)
+Record good (c : cfg) (init : fs) (outs : list output) : Prop := {
+  g_nofds : nofds init;
+  g_wf : dir_wf init;
+  g_ok : okouts init outs;
+  g_spares : forall o, In o outs -> spares c o = true
+}.
+
+Lemma plan_safe c init outs : forallb safe (plan c init outs) = true.
+Proof. unfold plan. rewrite forallb_app, write_ops_safe. apply forallb_ru_safe, clean_ops_ru. Qed.
+
+Lemma prefix_safe {c init outs p} : prefix_of p (plan c init outs) -> forallb safe p = true.
+Proof.
+  intros [r Hr]. pose proof (plan_safe c init outs) as H. rewrite Hr, forallb_app in H.
+  now apply andb_true_iff in H as [H _].
+Qed.
+
+Section Run.
+  Variables (c : cfg) (init : fs) (outs : list output).
+  Hypothesis G : good c init outs.
+
+  Let W := write_ops (c_fd c) outs.
+  Let s1 := exec init W.
+
+  Lemma s1_facts :
+    (forall o, In o outs -> exists i, lookup (o_name o) (dir s1) = Some i /\ next init <= i /\ data s1 i = new_bytes o) /\
+    (forall t, In t (temps outs) -> lookup t (dir s1) = None) /\
+    (forall n, ~ In n (names outs) -> ~ In n (temps outs) -> lookup n (dir s1) = lookup n (dir init)) /\
+    nofds s1 /\ dir_wf s1 /\ next init <= next s1 /\
+    (forall j, j < next init -> data s1 j = data init j) /\
+    all_ok init W = true.
+  Proof. destruct G as [H1 H2 H3 _]. exact (write_phase (c_fd c) outs init H1 H2 H3). Qed.
+
+  Lemma output_not_victim o : In o outs -> ~ In (o_name o) (victims c s1).
+  Proof.
+    intros Hin Hv. apply victims_spec in Hv as (Hc & Hg & _ & Hv).
+    destruct s1_facts as (F1 & _). destruct (F1 o Hin) as (i & L & _ & D).
+    pose proof (g_spares _ _ _ G o Hin) as Hs. unfold spares in Hs. unfold is_victim, visible in Hv.
+    rewrite L, D in Hv. rewrite Hc, Hg in Hs. cbn in Hs.
+    apply andb_true_iff in Hv as [Hv1 Hv2]. apply negb_true_iff in Hv1. rewrite Hv1 in Hs. cbn in Hs.
+    apply andb_true_iff in Hv2 as [Hv2 Hv3]. apply negb_true_iff in Hv2. rewrite Hv2, Hv3 in Hs.
+    discriminate.
+  Qed.
+
+  Lemma temp_not_victim t : In t (temps outs) -> ~ In t (victims c s1).
+  Proof.
+    intros Hin Hv. apply victims_spec in Hv as (_ & _ & Hb & _).
+    destruct s1_facts as (_ & F2 & _). now rewrite (F2 t Hin) in Hb.
+  Qed.
+
+  (* every prefix of the plan is a prefix of the write loop, or the whole write
+     loop followed by a prefix of Clean *)
+  Lemma plan_prefix p : prefix_of p (plan c init outs) ->
+    prefix_of p W \/ exists q, p = (W ++ q)%list /\ prefix_of q (clean_ops c s1).
+  Proof. unfold plan. apply prefix_of_app. Qed.
+
+  Lemma clean_prefix_facts q : prefix_of q (clean_ops c s1) ->
+    forallb ru q = true /\
+    (forall n, ~ In n (victims c s1) -> lookup n (dir (exec s1 q)) = lookup n (dir s1)).
+  Proof.
+    intros Hq. split.
+    - destruct Hq as [r Hr]. pose proof (clean_ops_ru c s1) as H. rewrite Hr, forallb_app in H.
+      now apply andb_true_iff in H as [H _].
+    - intros n Hn. apply exec_untouched. intros o Ho Hin. apply Hn.
+      apply (clean_ops_touch c s1 o n); [exact (prefix_of_In _ _ _ Hq Ho)|exact Hin].
+  Qed.
+
+  (* the general description of the state after any prefix *)
+  Lemma prefix_state p : prefix_of p (plan c init outs) ->
+    let s := exec init p in
+    (forall o, In o outs ->
+       lookup (o_name o) (dir s) = lookup (o_name o) (dir init) \/
+       exists i, lookup (o_name o) (dir s) = Some i /\ data s i = new_bytes o /\ next init <= i) /\
+    (forall n, ~ In n (names outs) -> ~ In n (temps outs) -> ~ In n (victims c s1) ->
+       lookup n (dir s) = lookup n (dir init)) /\
+    (forall n, In n (victims c s1) -> lookup n (dir s) = lookup n (dir init) \/ lookup n (dir s) = None) /\
+    (forall n i, ~ In n (temps outs) -> lookup n (dir s) = Some i -> closed s i) /\
+    (forall j, j < next init -> data s j = data init j).
+  Proof.
+    intros Hp. cbn zeta.
+    assert (HD : forall j, j < next init -> data (exec init p) j = data init j).
+    { intros j Hj. apply exec_closed; [exact (prefix_safe Hp)|]. apply init_closed; [apply G|exact Hj]. }
+    destruct (plan_prefix p Hp) as [Hw|(q & -> & Hq)].
+    - pose proof G as [H1 H2 H3 _].
+      destruct (write_prefix_state (c_fd c) outs init p H1 H2 H3 Hw) as (A & B & C).
+      split; [exact A|]. split; [intros n Hn Ht _; now apply B|]. split; [|split; [exact C|exact HD]].
+      intros n Hv. left.
+      assert (Hnn : ~ In n (names outs)).
+      { intros Hx. apply in_map_iff in Hx as (o & <- & Ho). now apply (output_not_victim o Ho). }
+      assert (Hnt : ~ In n (temps outs)) by (intros Hx; now apply (temp_not_victim n Hx)).
+      now apply B.
+    - rewrite exec_app. fold W. fold s1.
+      destruct s1_facts as (F1 & F2 & F3 & F4 & F5 & F6 & F7 & F8).
+      destruct (clean_prefix_facts q Hq) as [Hru Hunt].
+      destruct (exec_ru q s1 Hru) as (Ed & Ef & En & El).
+      split; [|split; [|split; [|split]]].
+      + intros o Hin. right. destruct (F1 o Hin) as (i & L & Hle & D). exists i.
+        rewrite (Hunt _ (output_not_victim o Hin)), Ed. auto.
+      + intros n Hn Ht Hv. rewrite (Hunt _ Hv). now apply F3.
+      + intros n Hv. destruct (El n) as [E|E]; [|now right]. left. rewrite E.
+        apply F3.
+        * intros Hx. apply in_map_iff in Hx as (o & <- & Ho). now apply (output_not_victim o Ho).
+        * intros Hx. now apply (temp_not_victim n Hx).
+      + intros n i Ht L. destruct (El n) as [E|E]; [|congruence]. rewrite E in L.
+        split; [rewrite En; now apply (F5 n)|]. intros h. rewrite Ef, F4. discriminate.
+      + intros j Hj. specialize (HD j Hj). now rewrite exec_app in HD.
+  Qed.
+
+  (* ---- the theorems ---- *)
+  Lemma visible_eq s n : lookup n (dir s) = lookup n (dir init) ->
+    (forall j, j < next init -> data s j = data init j) -> visible s n = visible init n.
+  Proof.
+    intros L D. unfold visible. rewrite L. destruct (lookup n (dir init)) as [i|] eqn:E; [|reflexivity].
+    f_equal. apply D. exact (g_wf _ _ _ G n i E).
+  Qed.
+
+  Theorem atomic p o : prefix_of p (plan c init outs) -> In o outs ->
+    visible (exec init p) (o_name o) = visible init (o_name o) \/
+    visible (exec init p) (o_name o) = Some (new_bytes o).
+  Proof.
+    intros Hp Hin. destruct (prefix_state p Hp) as (A & _ & _ & _ & D).
+    destruct (A o Hin) as [L|(i & L & Dn & _)].
+    - left. now apply visible_eq.
+    - right. unfold visible. now rewrite L, Dn.
+  Qed.
+
+  Theorem frame p n : prefix_of p (plan c init outs) ->
+    ~ In n (names outs) -> ~ In n (temps outs) -> ~ In n (victims c s1) ->
+    lookup n (dir (exec init p)) = lookup n (dir init) /\ visible (exec init p) n = visible init n.
+  Proof.
+    intros Hp H1 H2 H3. destruct (prefix_state p Hp) as (_ & B & _ & _ & D).
+    split; [now apply B|]. apply visible_eq; [now apply B|exact D].
+  Qed.
+
+  Theorem victim_old_or_gone p n : prefix_of p (plan c init outs) -> In n (victims c s1) ->
+    visible (exec init p) n = visible init n \/ visible (exec init p) n = None.
+  Proof.
+    intros Hp Hv. destruct (prefix_state p Hp) as (_ & _ & V & _ & D).
+    destruct (V n Hv) as [L|L].
+    - left. now apply visible_eq.
+    - right. unfold visible. now rewrite L.
+  Qed.
+
+  Theorem old_inodes_keep_bytes p j : prefix_of p (plan c init outs) -> j < next init ->
+    data (exec init p) j = data init j.
+  Proof. intros Hp. now apply prefix_state. Qed.
+
+  (* a hard link: another name of the inode an old output had *)
+  Theorem hard_link_keeps_old p o l i : prefix_of p (plan c init outs) -> In o outs ->
+    lookup (o_name o) (dir init) = Some i -> lookup l (dir init) = Some i ->
+    ~ In l (names outs) -> ~ In l (temps outs) -> ~ In l (victims c s1) ->
+    visible (exec init p) l = visible init (o_name o).
+  Proof.
+    intros Hp Hin Lo Ll H1 H2 H3. destruct (frame p l Hp H1 H2 H3) as [_ V]. rewrite V.
+    unfold visible. now rewrite Lo, Ll.
+  Qed.
+
+  (* what a reader has opened stays what it was *)
+  Theorem reader_stability p r n i : prefix_of (p ++ r)%list (plan c init outs) ->
+    ~ In n (temps outs) -> lookup n (dir (exec init p)) = Some i ->
+    data (exec init (p ++ r)) i = data (exec init p) i.
+  Proof.
+    intros Hpr Ht L.
+    assert (Hp : prefix_of p (plan c init outs)).
+    { destruct Hpr as [x Hx]. exists (r ++ x)%list. now rewrite app_assoc. }
+    destruct (prefix_state p Hp) as (_ & _ & _ & C & _).
+    rewrite exec_app. apply exec_closed; [|exact (C n i Ht L)].
+    pose proof (prefix_safe Hpr) as Hs. rewrite forallb_app in Hs. now apply andb_true_iff in Hs as [_ Hs].
+  Qed.
+
+  (* the state after the complete run *)
+  Theorem final_state :
+    let s := exec init (plan c init outs) in
+    (forall o, In o outs -> visible s (o_name o) = Some (new_bytes o)) /\
+    (forall t, In t (temps outs) -> lookup t (dir s) = None) /\
+    (forall n, In n (victims c s1) -> lookup n (dir s) = None) /\
+    (forall n, ~ In n (names outs) -> ~ In n (temps outs) -> ~ In n (victims c s1) ->
+       lookup n (dir s) = lookup n (dir init) /\ visible s n = visible init n) /\
+    nofds s.
+  Proof.
+    cbn zeta. unfold plan. fold W. rewrite exec_app. fold s1.
+    destruct s1_facts as (F1 & F2 & F3 & F4 & F5 & F6 & F7 & F8).
+    destruct (clean_prefix_facts _ (prefix_of_refl (clean_ops c s1))) as [Hru Hunt].
+    destruct (exec_ru _ s1 Hru) as (Ed & Ef & En & El).
+    repeat split.
+    - intros o Hin. destruct (F1 o Hin) as (i & L & _ & D). unfold visible.
+      rewrite (Hunt _ (output_not_victim o Hin)), L, Ed, D. reflexivity.
+    - intros t Hin. rewrite (Hunt _ (temp_not_victim t Hin)). now apply F2.
+    - intros n Hv. apply exec_ru_unlinked; [exact Hru|now apply victims_unlinked].
+    - rewrite (Hunt _ H1). now apply F3.
+    - pose proof (frame (plan c init outs) n (prefix_of_refl _) H H0 H1) as [_ V].
+      unfold plan in V. fold W in V. rewrite exec_app in V. exact V.
+    - intros h. rewrite Ef. apply F4.
+  Qed.
+
+  (* no name appears that is not an output (or, before the end, a temporary) *)
+  Theorem new_names_are_outputs_or_temps p n : prefix_of p (plan c init outs) ->
+    lookup n (dir (exec init p)) <> None -> lookup n (dir init) = None ->
+    In n (names outs) \/ In n (temps outs).
+  Proof.
+    intros Hp Hb Hi.
+    destruct (in_dec String.string_dec n (names outs)) as [|H1]; [now left|].
+    destruct (in_dec String.string_dec n (temps outs)) as [|H2]; [now right|].
+    destruct (prefix_state p Hp) as (_ & B & V & _ & _).
+    destruct (in_dec String.string_dec n (victims c s1)) as [Hv|H3].
+    - destruct (V n Hv) as [E|E]; congruence.
+    - rewrite (B n H1 H2 H3) in Hb. congruence.
+  Qed.
+
+  (* who is a victim, in terms of the directory before the run *)
+  Theorem victims_char n : ~ In n (names outs) ->
+    (In n (victims c s1) <-> victim_spec c init n = true).
+  Proof.
+    intros H1. destruct s1_facts as (F1 & F2 & F3 & F4 & F5 & F6 & F7 & F8).
+    destruct (in_dec String.string_dec n (temps outs)) as [Ht|H2].
+    - split.
+      + intros Hv. exfalso. now apply (temp_not_victim n Ht).
+      + intros Hs. exfalso. unfold victim_spec, visible in Hs.
+        rewrite (k_fresh _ _ (g_ok _ _ _ G) n Ht) in Hs. rewrite !andb_false_r in Hs. discriminate.
+    - assert (EV : visible s1 n = visible init n).
+      { apply visible_eq; [now apply F3|exact F7]. }
+      rewrite victims_spec. unfold victim_spec, is_victim. rewrite EV, (F3 n H1 H2).
+      split.
+      + intros (Hc & Hg & Hb & Hv). rewrite Hc, Hg. cbn.
+        apply andb_true_iff in Hv as [Hv1 Hv2]. now rewrite Hv1, Hv2.
+      + intros Hs. apply andb_true_iff in Hs as [Hs Hv2]. apply andb_true_iff in Hs as [Hs Hv1].
+        apply andb_true_iff in Hs as [Hc Hg]. repeat split; auto.
+        * unfold visible in Hv2. destruct (lookup n (dir init)); [discriminate|discriminate Hv2].
+        * now rewrite Hv1, Hv2.
+  Qed.
+
+  Theorem plan_all_ok_writes : all_ok init W = true.
+  Proof. apply s1_facts. Qed.
+End Run.
+
+(* --------------------------------------------------- consequences, restated *)
+(* a file that Clean's description does not select and that is not an output
+   name keeps its name, inode and bytes at every instant *)
+Theorem not_selected_untouched c init outs p n :
+  good c init outs -> prefix_of p (plan c init outs) ->
+  ~ In n (names outs) -> lookup n (dir init) <> None -> victim_spec c init n = false ->
+  lookup n (dir (exec init p)) = lookup n (dir init) /\ visible (exec init p) n = visible init n.
+Proof.
+  intros G Hp H1 Hb Hs. apply (frame c init outs G p n Hp H1).
+  - intros Ht. apply Hb. exact (k_fresh _ _ (g_ok _ _ _ G) n Ht).
+  - intros Hv. apply (victims_char c init outs G n H1) in Hv. congruence.
+Qed.
+
+(* never a hand-written file: a file whose first line is not the header of the
+   same subcommand is not selected *)
+Lemma hand_written_not_selected c init n b :
+  visible init n = Some b -> is_gen (c_cmd c) (first_line b) = false -> victim_spec c init n = false.
+Proof. intros V H. unfold victim_spec. rewrite V, H. now rewrite !andb_false_r. Qed.
+
+Lemma aio_not_selected c init n b :
+  visible init n = Some b -> is_aio (first_line b) = true -> victim_spec c init n = false.
+Proof. intros V H. unfold victim_spec. rewrite V, H. cbn. now rewrite !andb_false_r. Qed.
+
+Lemma other_name_not_selected c init n : glob (c_cmd c) n = false -> victim_spec c init n = false.
+Proof. intros H. unfold victim_spec. rewrite H. now rewrite andb_false_r. Qed.
+
+Lemma no_clean_not_selected c init n : c_clean c = false -> victim_spec c init n = false.
+Proof. intros H. unfold victim_spec. now rewrite H. Qed.
+
+(* what being selected means *)
+Lemma victim_spec_sound c init n : victim_spec c init n = true ->
+  c_clean c = true /\ glob (c_cmd c) n = true /\
+  exists b, visible init n = Some b /\ is_aio (first_line b) = false /\
+            exists r, first_line b = gen_prefix (c_cmd c) ++ r.
+Proof.
+  unfold victim_spec. intros H.
+  apply andb_true_iff in H as [H Hv]. apply andb_true_iff in H as [H _]. apply andb_true_iff in H as [Hc Hg].
+  repeat split; auto. destruct (visible init n) as [b|]; [|discriminate]. exists b.
+  apply andb_true_iff in Hv as [Ha Hgen]. apply negb_true_iff in Ha.
+  repeat split; auto. now apply is_gen_prefix.
+Qed.
+
+(* the guard [spares] holds for the all-in-one output whenever Clean's own-file test can
+   succeed: Dir is "." or the comparison is on base names (the repair of K_clean_own_output) *)
+Lemma own_spares c o : (c_dirdot c || c_fixed c) = true -> o_name o = c_genfile c -> spares c o = true.
+Proof.
+  intros H E. unfold spares, is_own. rewrite H, E, String.eqb_refl. cbn. now rewrite !orb_true_r.
+Qed.
+
+(* ------------------------------- real temp names satisfy the freshness guards *)
+Lemma all_digits_app a b : all_digits (a ++ b) = all_digits a && all_digits b.
+Proof. induction a as [|x a IH]; cbn; [reflexivity|]. rewrite IH. now rewrite andb_assoc. Qed.
+
+Lemma all_digits_srev r : all_digits r = true -> all_digits (srev r) = true.
+Proof.
+  induction r as [|x r IH]; intros H; [reflexivity|].
+  cbn in H. apply andb_true_iff in H as [Hx Hr].
+  rewrite srev_cons, all_digits_app, (IH Hr). cbn. now rewrite Hx.
+Qed.
+
+Lemma digits_split a : forall b x y, all_digits a = true -> all_digits b = true ->
+  a ++ "_" ++ x = b ++ "_" ++ y -> a = b /\ x = y.
+Proof.
+  induction a as [|c a IH]; intros b x y Ha Hb E.
+  - destruct b as [|d b]; cbn in E.
+    + injection E as E. auto.
+    + injection E as E1 E2. subst d. cbn in Hb. discriminate.
+  - destruct b as [|d b]; cbn in E.
+    + injection E as E1 E2. subst c. cbn in Ha. discriminate.
+    + injection E as E1 E2. subst d. cbn in Ha, Hb.
+      apply andb_true_iff in Ha as [_ Ha]. apply andb_true_iff in Hb as [_ Hb].
+      destruct (IH b x y Ha Hb E2) as [-> ->]. auto.
+Qed.
+
+Lemma srev_inj a b : srev a = srev b -> a = b.
+Proof. intros E. rewrite <- (srev_involutive a), <- (srev_involutive b). now rewrite E. Qed.
+
+Lemma tmp_name_inj f r f' r' : all_digits r = true -> all_digits r' = true ->
+  tmp_name f r = tmp_name f' r' -> f = f' /\ r = r'.
+Proof.
+  unfold tmp_name. intros Hr Hr' E. cbn [append] in E. injection E as E.
+  apply (f_equal srev) in E. rewrite !srev_app, !srev_cons, !sapp_assoc in E.
+  destruct (digits_split _ _ _ _ (all_digits_srev _ Hr) (all_digits_srev _ Hr') E) as [E1 E2].
+  split; now apply srev_inj.
+Qed.
+
+(* outputs named by the pattern, temp names of the shape CreateTemp produces *)
+Definition shaped (cmd : string) (o : output) : Prop :=
+  glob cmd (o_name o) = true /\
+  exists r, o_tmp o = tmp_name (o_name o) r /\ all_digits r = true /\ r <> "".
+
+Lemma shaped_okouts cmd init outs :
+  NoDup (names outs) -> (forall o, In o outs -> shaped cmd o) ->
+  (forall t, In t (temps outs) -> lookup t (dir init) = None) ->
+  okouts init outs.
+Proof.
+  intros Hn Hs Hf. split; auto.
+  - unfold temps, names in *. induction outs as [|o r IH]; [constructor|].
+    cbn in *. inversion Hn as [|? ? Hn1 Hn2]; subst. constructor.
+    + intros Hin. apply in_map_iff in Hin as (o' & E & Ho').
+      destruct (Hs o (or_introl eq_refl)) as (_ & d & Ed & Hd & _).
+      destruct (Hs o' (or_intror Ho')) as (_ & d' & Ed' & Hd' & _).
+      rewrite Ed, Ed' in E. destruct (tmp_name_inj _ _ _ _ Hd' Hd E) as [E1 _].
+      apply Hn1. rewrite <- E1. now apply in_map.
+    + apply IH; auto.
+  - intros t Ht Hin. unfold temps, names in *.
+    apply in_map_iff in Ht as (o & <- & Ho). apply in_map_iff in Hin as (o' & E & Ho').
+    destruct (Hs o Ho) as (_ & d & Ed & Hd & Hne). destruct (Hs o' Ho') as (Hg & _).
+    rewrite Ed in E. symmetry in E. now apply (tmp_name_not_output cmd _ _ _ Hd Hne Hg) in E.
+Qed.
+
+(* ----------------------------------------------- the directory keys stay unique *)
+Definition keys_nodup (d : list (name * inode)) : Prop := NoDup (map fst d).
+
+Lemma remove_name_keys n d m : In m (map fst (remove_name n d)) -> In m (map fst d) /\ m <> n.
+Proof.
+  induction d as [|[k i] d IH]; cbn; [tauto|].
+  destruct (String.eqb_spec n k) as [->|Hne].
+  - intros H. destruct (IH H). auto.
+  - cbn. intros [<-|H]; [auto|]. destruct (IH H). auto.
+Qed.
+
+Lemma remove_name_nodup n d : keys_nodup d -> keys_nodup (remove_name n d).
+Proof.
+  unfold keys_nodup. induction d as [|[k i] d IH]; cbn; [auto|]. intros H.
+  inversion H as [|? ? H1 H2]; subst.
+  destruct (String.eqb n k); [now apply IH|]. cbn. constructor; [|now apply IH].
+  intros Hin. apply remove_name_keys in Hin as [Hin _]. contradiction.
+Qed.
+
+Lemma bind_nodup n i d : keys_nodup d -> keys_nodup (bind n i d).
+Proof.
+  intros H. unfold keys_nodup, bind. cbn. constructor; [|now apply remove_name_nodup].
+  intros Hin. apply remove_name_keys in Hin as [_ Hne]. congruence.
+Qed.
+
+Lemma step_keys s o : keys_nodup (dir s) -> keys_nodup (dir (step s o)).
+Proof.
+  intros H. unfold step. destruct (negb (ok s o)); [exact H|].
+  destruct o as [h t|h b|h|a b|m|m|h m|w]; cbn; auto.
+  - now apply bind_nodup.
+  - destruct (fds s h); exact H.
+  - destruct (lookup a (dir s)); [|exact H]. destruct (String.eqb a b); [exact H|]. cbn.
+    now apply bind_nodup, remove_name_nodup.
+  - now apply remove_name_nodup.
+  - destruct (lookup m (dir s)); cbn; [exact H|now apply bind_nodup].
+Qed.
+
+Lemma exec_keys ops : forall s, keys_nodup (dir s) -> keys_nodup (dir (exec s ops)).
+Proof. induction ops as [|o ops IH]; intros s H; cbn; [exact H|]. now apply IH, step_keys. Qed.
+
+Lemma insert_sorted_perm x l : Permutation (insert_sorted x l) (x :: l).
+Proof.
+  induction l as [|y l IH]; cbn; [reflexivity|].
+  destruct (String.leb x y); [reflexivity|].
+  rewrite IH. apply perm_swap.
+Qed.
+
+Lemma sort_names_perm l : Permutation (sort_names l) l.
+Proof. induction l as [|x l IH]; cbn; [reflexivity|]. rewrite insert_sorted_perm. now constructor. Qed.
+
+Lemma NoDup_filter {A} (f : A -> bool) l : NoDup l -> NoDup (filter f l).
+Proof.
+  induction l as [|x l IH]; intros H; cbn; [constructor|].
+  inversion H as [|? ? H1 H2]; subst. destruct (f x); [|now apply IH].
+  constructor; [|now apply IH]. intros Hin. apply filter_In in Hin as [Hin _]. contradiction.
+Qed.
+
+Lemma matches_nodup c s : keys_nodup (dir s) -> NoDup (matches c s).
+Proof.
+  intros H. unfold matches. apply (Permutation_NoDup (l := filter (glob (c_cmd c)) (listing s))).
+  - symmetry. apply sort_names_perm.
+  - now apply NoDup_filter.
+Qed.
+
+(* Clean never fails: every file it reads or removes is there *)
+Lemma clean_loop_ok c s0 : forall l s, NoDup l ->
+  (forall f, In f l -> lookup f (dir s) <> None) ->
+  (forall f, In f l -> visible s f = visible s0 f) ->
+  data s = data s0 ->
+  all_ok s (flat_map (clean_one c s0) l) = true.
+Proof.
+  induction l as [|f l IH]; intros s Hnd Hb Hv Hd; [reflexivity|].
+  inversion Hnd as [|? ? Hn1 Hn2]; subst.
+  cbn [flat_map]. rewrite all_ok_app.
+  assert (Hf : lookup f (dir s) <> None) by (apply Hb; now left).
+  assert (Hone : all_ok s (clean_one c s0 f) = true /\
+                 forallb ru (clean_one c s0 f) = true /\
+                 forall o n, In o (clean_one c s0 f) -> In n (touch o) -> n = f).
+  { split; [|split; [apply clean_one_ru|]].
+    - unfold clean_one. destruct (is_own c f); [reflexivity|].
+      destruct (visible s0 f); [|reflexivity].
+      assert (Hr : ok s (ReadFirstLine f) = true) by (cbn; destruct (lookup f (dir s)); congruence).
+      assert (Hs : step s (ReadFirstLine f) = s) by (unfold step; now rewrite Hr).
+      destruct (is_aio (first_line b)); [cbn [all_ok]; now rewrite Hr|].
+      destruct (is_gen (c_cmd c) (first_line b)); cbn [all_ok]; rewrite Hr, Hs, Hr, ?Hs; [|reflexivity].
+      cbn. destruct (lookup f (dir s)); [reflexivity|congruence].
+    - intros o n Ho Hn. now destruct (clean_one_touch c s0 f o n Ho Hn). }
+  destruct Hone as (H1 & H2 & H3). rewrite H1. cbn.
+  destruct (exec_ru _ s H2) as (Ed & _ & _ & _).
+  apply IH; auto.
+  - intros g Hg. rewrite exec_untouched; [apply Hb; now right|].
+    intros o Ho Hin. apply (H3 o g Ho) in Hin. subst g. contradiction.
+  - intros g Hg. unfold visible. rewrite Ed. rewrite exec_untouched.
+    + apply Hv. now right.
+    + intros o Ho Hin. apply (H3 o g Ho) in Hin. subst g. contradiction.
+  - congruence.
+Qed.
+
+Theorem plan_all_ok c init outs : good c init outs -> keys_nodup (dir init) ->
+  all_ok init (plan c init outs) = true.
+Proof.
+  intros G Hk. unfold plan. rewrite all_ok_app, (plan_all_ok_writes c init outs G). cbn.
+  set (s1 := exec init (write_ops (c_fd c) outs)).
+  unfold clean_ops. destruct (c_clean c); [|reflexivity].
+  apply clean_loop_ok; auto.
+  - apply matches_nodup. now apply exec_keys.
+  - intros f Hf. now apply matches_In in Hf.
+Qed.
+
+(* -------------------------------------- directory states given as file lists *)
+Lemma lookup_mk n i files :
+  lookup n (fold_right (fun f d => bind (fst (fst f)) (snd (fst f)) d) [] files) = Some i ->
+  In i (map (fun f : name * inode * bytes => snd (fst f)) files).
+Proof.
+  induction files as [|f r IH]; cbn [fold_right map]; [discriminate|].
+  destruct (String.eqb_spec n (fst (fst f))) as [->|Hne].
+  - rewrite lookup_bind_eq. intros E. injection E as <-. now left.
+  - rewrite lookup_bind_neq by exact Hne. intros H. right. now apply IH.
+Qed.
+
+Lemma max_ge i (files : list (name * inode * bytes)) :
+  In i (map (fun f => snd (fst f)) files) ->
+  i <= fold_right (fun f m => Nat.max (snd (fst f)) m) 0 files.
+Proof.
+  induction files as [|f r IH]; cbn [fold_right map In]; [tauto|]. intros [<-|H]; [apply Nat.le_max_l|].
+  etransitivity; [exact (IH H)|apply Nat.le_max_r].
+Qed.
+
+Theorem mk_init_wf files :
+  nofds (mk_init files) /\ dir_wf (mk_init files) /\ keys_nodup (dir (mk_init files)).
+Proof.
+  split; [|split].
+  - intros h. reflexivity.
+  - intros n i H. unfold mk_init in *. cbn [dir next] in *. apply lookup_mk, max_ge in H.
+    apply Nat.lt_succ_r. exact H.
+  - cbn. induction files as [|f r IH]; cbn; [constructor|]. now apply bind_nodup.
+Qed.
+
+(* crash points: prefixes are exactly the [firstn k] *)
+Lemma prefix_is_firstn {A} (p l : list A) : prefix_of p l -> p = firstn (length p) l.
+Proof.
+  intros [r ->]. rewrite firstn_app, firstn_all, Nat.sub_diag. cbn. now rewrite app_nil_r.
+Qed.
+
+(* ------------------------------------------- output names are path components *)
+Lemma noslash_app a b : noslash (a ++ b) = noslash a && noslash b.
+Proof. induction a as [|c a IH]; cbn; [reflexivity|]. rewrite IH. now rewrite andb_assoc. Qed.
+
+Lemma to_lower_noslash c : Nat.eqb (nat_of_ascii (to_lower_c c)) 47 = Nat.eqb (nat_of_ascii c) 47.
+Proof.
+  unfold to_lower_c. destruct (Nat.leb 65 (nat_of_ascii c) && Nat.leb (nat_of_ascii c) 90) eqn:E; [|reflexivity].
+  apply andb_true_iff in E as [E1 E2]. apply Nat.leb_le in E1. apply Nat.leb_le in E2.
+  rewrite nat_ascii_embedding by lia.
+  destruct (Nat.eqb_spec (nat_of_ascii c + 32) 47), (Nat.eqb_spec (nat_of_ascii c) 47); try reflexivity; lia.
+Qed.
+
+Lemma lower_noslash s : noslash (lower s) = noslash s.
+Proof. induction s as [|c s IH]; cbn; [reflexivity|]. now rewrite to_lower_noslash, IH. Qed.
+
+Lemma trim_go_spec f : f = trim_go f \/ f = trim_go f ++ ".go".
+Proof.
+  unfold trim_go. destruct (sprefix "og." (srev f)) eqn:E; [|now left]. right.
+  destruct (sprefix_spec _ _ E) as [r Hr]. rewrite Hr. change 3 with (String.length "og.").
+  rewrite sdrop_app. rewrite <- (srev_involutive f) at 1. rewrite Hr, srev_app. reflexivity.
+Qed.
+
+Lemma trim_go_noslash f : noslash f = true -> noslash (trim_go f) = true.
+Proof.
+  intros H. destruct (trim_go_spec f) as [E|E]; [now rewrite <- E|].
+  rewrite E, noslash_app in H. now apply andb_true_iff in H as [H _].
+Qed.
+
+Theorem file_name_noslash cmd gofile T :
+  noslash cmd = true -> noslash gofile = true -> noslash T = true ->
+  noslash (file_name cmd gofile T) = true.
+Proof.
+  intros Hc Hg HT. unfold file_name. destruct T as [|c T].
+  - rewrite !noslash_app, (trim_go_noslash _ Hg), Hc. reflexivity.
+  - rewrite !noslash_app, (trim_go_noslash _ Hg), Hc, lower_noslash.
+    destruct (is_exported (String c T)); [rewrite HT; reflexivity|].
+    rewrite noslash_app, HT. reflexivity.
+Qed.
+
+Lemma digits_noslash r : all_digits r = true -> noslash r = true.
+Proof.
+  induction r as [|c r IH]; [reflexivity|]. cbn [all_digits noslash]. intros H.
+  apply andb_true_iff in H as [Hc Hr]. apply andb_true_iff in Hc as [H1 H2].
+  apply Nat.leb_le in H1. rewrite (IH Hr), andb_true_r.
+  destruct (Nat.eqb_spec (nat_of_ascii c) 47) as [E|E]; [rewrite E in H1; cbn in H1; lia|reflexivity].
+Qed.
+
+Theorem tmp_name_noslash f r : noslash f = true -> all_digits r = true -> noslash (tmp_name f r) = true.
+Proof.
+  intros Hf Hr. unfold tmp_name. rewrite !noslash_app, Hf, (digits_noslash _ Hr). reflexivity.
+Qed.
